@@ -46,9 +46,15 @@ class C03Episode(Episode):
         # accepted set requests change the reference options
         if r.cmd == 'set' and isinstance(ent[5], dict) and \
                 ent[5].get('status') == 'ok' and r.wname:
-            self.apply_set(r)
+            self.apply_set(r, again=False)
 
-    def apply_set(self, r):
+    def apply_set(self, r, again=True):
+        # (once per request unless it is the request being dispatched: the
+        # late reply of a waiting set must not undo a set dispatched after it)
+        done = self.__dict__.setdefault('_sets_applied', set())
+        if r.idx in done and not again:
+            return
+        done.add(r.idx)
         if True:
             m = self.name2marker.get(r.wname.lower())
             opts = (r.props or {}).get('options') or {}
